@@ -1,4 +1,561 @@
-(* Proofs about the composed one-frame pipeline (Model/Pipeline.v). *)
+(* Proofs about the composed one-frame pipeline (Model/Pipeline.v):
+     1. the Res list built from the matcher model's output satisfies PassFail.wf_frame
+        (C01's theorems discharge C03's hypothesis);
+     2. hence every C03 clause holds for frame_pipeline with hypotheses on the INPUTS only;
+     3. the ranking Ap(L) sees has no more TPs than there are critical ground truths labelled L,
+        hence AP / APH / mAP / mAPH of the frame lie in [0,1] with no counting hypothesis;
+     4. loosening the pass/fail thresholds never loses a TP and never adds an FN (C08 with C03's bookkeeping). *)
 From Coq Require Import List Bool ZArith String Arith Permutation Lia.
 From PE Require Import Base.QUtil Model.Matching Model.Filter Model.PassFail Model.Pipeline.
+From PE Require Import Proofs.MatchingProofs Proofs.FilterProofs Proofs.PassFailProofs.
+From PE Require Model.AP Proofs.APRanking Proofs.APKinds Proofs.APModel.
 Import ListNotations.
+Open Scope Q_scope.
+
+(* ------------------------------------------------------------------------------------------------ *)
+(* identities are indices                                                                            *)
+(* ------------------------------------------------------------------------------------------------ *)
+Lemma nat_list_eqb_eq a : forall b, nat_list_eqb a b = true <-> a = b.
+Proof.
+  induction a as [|x s IH]; intros [|y t]; cbn [nat_list_eqb]; try (split; [discriminate|discriminate]); [tauto|].
+  rewrite andb_true_iff, Nat.eqb_eq, IH. split; [intros [-> ->]; reflexivity|intros [= -> ->]; auto].
+Qed.
+
+Lemma ids_ok_eq l : ids_ok l = true -> map o_id l = seq 0 (List.length l).
+Proof. unfold ids_ok, ids. apply nat_list_eqb_eq. Qed.
+
+Lemma ids_ok_nth l i o : ids_ok l = true -> nth_error l i = Some o -> o_id o = i.
+Proof.
+  intros H Hn. apply ids_ok_eq in H.
+  pose proof (map_nth_error o_id i l Hn) as M. rewrite H in M.
+  assert (Hi : (i < List.length (seq 0 (List.length l)))%nat) by (apply nth_error_Some; congruence).
+  rewrite seq_length in Hi.
+  pose proof (nth_error_nth _ _ O M) as N. rewrite seq_nth in N by assumption. simpl in N. congruence.
+Qed.
+
+Lemma ids_ok_nodup l : ids_ok l = true -> NoDup (map o_id l).
+Proof. intros H. rewrite (ids_ok_eq _ H). apply seq_NoDup. Qed.
+
+Lemma nodup_nat_NoDup l : nodup_nat l = true -> NoDup l.
+Proof.
+  induction l as [|x t IH]; cbn [nodup_nat]; [constructor|].
+  rewrite andb_true_iff, negb_true_iff. intros [Hm Ht]. constructor; [|auto].
+  intros Hin. apply mem_nat_In in Hin. congruence.
+Qed.
+
+Lemma keys_distinct_NoDup gts : keys_distinct gts = true -> NoDup (map o_key gts).
+Proof. apply nodup_nat_NoDup. Qed.
+
+(* ------------------------------------------------------------------------------------------------ *)
+(* 1. build_results on in-range pairs                                                                *)
+(* ------------------------------------------------------------------------------------------------ *)
+Lemma gt_ids_res_pair rs : gt_ids rs = Matching.gts_of (map res_pair rs).
+Proof.
+  unfold gt_ids, PassFail.gts_of, Matching.gts_of.
+  induction rs as [|r t IH]; [reflexivity|].
+  cbn [flat_map map]. rewrite map_app, IH. f_equal.
+  unfold gt_of, res_pair. cbn [snd]. destruct (r_gt r); reflexivity.
+Qed.
+
+Lemma est_ids_res_pair rs : map est_id rs = map fst (map res_pair rs).
+Proof. rewrite map_map. reflexivity. Qed.
+
+Lemma build_results_spec p F T ests gts : forall out,
+  ids_ok ests = true -> ids_ok gts = true ->
+  (forall e og, In (e, og) out -> (e < List.length ests)%nat /\ forall g, og = Some g -> (g < List.length gts)%nat) ->
+  exists rs, build_results p F T ests gts out = Ok rs /\ map res_pair rs = out /\
+             (forall r, In r rs -> In (r_est r) ests /\ forall g, r_gt r = Some g -> In g gts).
+Proof.
+  intros out He Hg. induction out as [|[e og] t IH]; intros Hr.
+  - exists []. split; [reflexivity|]. split; [reflexivity|]. intros r [].
+  - destruct IH as (rs & Hb & Hm & Hin). { intros e' og' H. apply Hr. now right. }
+    destruct (Hr e og (or_introl eq_refl)) as [Le Lg].
+    destruct (nth_error_lt_Some ests e Le) as [eo Heo].
+    pose proof (ids_ok_nth _ _ _ He Heo) as Ide.
+    cbn [build_results]. unfold pair_res at 1. cbn [fst snd]. rewrite Heo.
+    destruct og as [g|].
+    + destruct (nth_error_lt_Some gts g (Lg g eq_refl)) as [go Hgo].
+      pose proof (ids_ok_nth _ _ _ Hg Hgo) as Idg.
+      rewrite Hgo. cbn [bind]. rewrite Hb. cbn [bind]. eexists. split; [reflexivity|]. split.
+      * cbn [map]. rewrite Hm. f_equal. unfold res_pair, est_id. cbn [r_est r_gt]. rewrite Ide, Idg. reflexivity.
+      * intros r [<-|Hin']; [|auto]. cbn [r_est r_gt]. split; [eapply nth_error_In; eauto|].
+        intros g' [= <-]. eapply nth_error_In; eauto.
+    + cbn [bind]. rewrite Hb. cbn [bind]. eexists. split; [reflexivity|]. split.
+      * cbn [map]. rewrite Hm. f_equal. unfold res_pair, est_id. cbn [r_est r_gt]. rewrite Ide. reflexivity.
+      * intros r [<-|Hin']; [|auto]. cbn [r_est r_gt]. split; [eapply nth_error_In; eauto|]. discriminate.
+Qed.
+
+(* what is asked of the object lists: identities are indices, as many objects as the facts describe *)
+Record scene_hyps (F : Facts) (ests gts : list Obj) : Prop := {
+  sh_est_ids : ids_ok ests = true;
+  sh_gt_ids : ids_ok gts = true;
+  sh_est_len : List.length ests = List.length (f_est_frame F);
+  sh_gt_len : List.length gts = List.length (f_gt_frame F);
+  sh_keys : NoDup (map o_key gts)
+}.
+
+Lemma scene_ok_hyps F T ests gts :
+  scene_ok F T ests gts = true -> keys_distinct gts = true -> scene_hyps F ests gts.
+Proof.
+  unfold scene_ok. rewrite !andb_true_iff. intros [[[[[[_ H1] H2] H3] H4] _] _] Hk.
+  constructor; auto using keys_distinct_NoDup; now apply Nat.eqb_eq.
+Qed.
+
+Theorem matched_results_wf md p fpv F T ests gts :
+  scene_hyps F ests gts ->
+  exists rs, matched_results md p fpv F T ests gts = Ok rs /\
+             map res_pair rs = get_object_results md p fpv F /\
+             wf_frame rs gts.
+Proof.
+  intros [He Hg Le Lg Hk]. unfold matched_results, get_object_results.
+  set (mx := maximize_of md). set (cell := cell_of mx F). set (ok := ok_of p F).
+  set (n := List.length (f_est_frame F)). set (m := List.length (f_gt_frame F)).
+  destruct (build_results_spec p F T ests gts (match_core mx fpv cell ok n m) He Hg) as (rs & Hb & Hm & Hin).
+  { intros e og H. rewrite Le, Lg. exact (match_core_in_range mx fpv cell ok n m e og H). }
+  exists rs. split; [exact Hb|]. split; [exact Hm|].
+  constructor.
+  - rewrite est_ids_res_pair, Hm. apply match_core_est_nodup.
+  - rewrite gt_ids_res_pair, Hm. apply match_core_gt_nodup.
+  - intros r g Hr Hgr. exact (proj2 (Hin r Hr) g Hgr).
+  - apply ids_ok_nodup; assumption.
+  - exact Hk.
+Qed.
+
+Theorem matched_results_wf_explicit md p fpv F T ests gts :
+  ids_ok ests = true -> ids_ok gts = true ->
+  List.length ests = List.length (f_est_frame F) -> List.length gts = List.length (f_gt_frame F) ->
+  NoDup (map o_key gts) ->
+  exists rs, matched_results md p fpv F T ests gts = Ok rs /\
+             map res_pair rs = get_object_results md p fpv F /\
+             wf_frame rs gts.
+Proof. intros H1 H2 H3 H4 H5. apply matched_results_wf. constructor; assumption. Qed.
+
+(* the Res list of the matcher's output, for every configuration: C03's hypothesis holds *)
+Corollary pipeline_wf_frame md p fpv F T ests gts rs :
+  scene_hyps F ests gts -> matched_results md p fpv F T ests gts = Ok rs -> wf_frame rs gts.
+Proof.
+  intros H E. destruct (matched_results_wf md p fpv F T ests gts H) as (rs' & E' & _ & W). congruence.
+Qed.
+
+(* the matching step never raises *)
+Corollary matched_results_ok md p fpv F T ests gts :
+  scene_hyps F ests gts -> exists rs, matched_results md p fpv F T ests gts = Ok rs.
+Proof. intros H. destruct (matched_results_wf md p fpv F T ests gts H) as (rs & E & _). eauto. Qed.
+
+(* outside FP validation every estimate handed to the matcher is the estimate of exactly one result *)
+Corollary matched_results_complete md p F T ests gts rs :
+  scene_hyps F ests gts -> matched_results md p false F T ests gts = Ok rs ->
+  Permutation (map est_id rs) (map o_id ests).
+Proof.
+  intros H E. destruct (matched_results_wf md p false F T ests gts H) as (rs' & E' & Hm & _).
+  assert (rs' = rs) by congruence. subst rs'.
+  rewrite est_ids_res_pair, Hm. unfold get_object_results.
+  rewrite (ids_ok_eq _ (sh_est_ids _ _ _ H)), (sh_est_len _ _ _ H). apply match_core_est_perm.
+Qed.
+
+(* ------------------------------------------------------------------------------------------------ *)
+(* 2. every C03 clause for the pipeline                                                              *)
+(* ------------------------------------------------------------------------------------------------ *)
+Definition frame_clauses (pf : PF) (crit : Cfg) (gts : list Obj) (Fr : Frame) : Prop :=
+  Permutation (map est_id (f_tp Fr) ++ map est_id (f_fp Fr)) (map est_id (f_results Fr)) /\
+  (forall g, In g (f_gts Fr) ->
+     (lbl_is_fp (o_label g) = false ->
+        (cnt (o_id g) (gt_ids (f_tp Fr)) + cnt (o_id g) (ids (f_fn Fr)) = 1)%nat) /\
+     (lbl_is_fp (o_label g) = true ->
+        (cnt (o_id g) (ids (f_tn Fr)) + cnt (o_id g) (gt_ids (f_fp Fr)) = 1)%nat)) /\
+  List.length (filter ordinary (f_gts Fr)) = (List.length (f_tp Fr) + List.length (f_fn Fr))%nat /\
+  (forall r, In r (f_tp Fr) ->
+     exists g, r_gt r = Some g /\ lbl_is_fp (o_label g) = false /\ r_label_ok r = true /\
+               forall t, thr_of pf (o_label g) = Some t -> exists v, r_score r = Some v /\ v < t) /\
+  (forall r, In r (f_tp Fr ++ f_fp Fr) -> kept (est_side crit) true false (r_est r) = true) /\
+  (forall g, In g (f_tn Fr ++ f_fn Fr) \/ (exists r, In r (f_tp Fr ++ f_fp Fr) /\ r_gt r = Some g) ->
+     In g gts /\ kept crit true true g = true).
+
+Lemma frame_all_clauses crit pf rs gts Fr :
+  frame_hyps crit pf rs gts -> evaluate_frame crit pf rs gts = Ok Fr -> frame_clauses pf crit gts Fr.
+Proof.
+  intros Hh H. pose proof (h_pf _ _ _ _ Hh) as Hpf.
+  destruct (counted_inside _ _ _ _ _ Hh H) as (I1 & I2 & I3).
+  split; [exact (proj1 (results_partition _ _ _ _ _ Hpf H))|].
+  split.
+  { intros g Hg. destruct (gt_accounted_once _ _ _ _ _ Hh H g Hg) as [A B]. split; intros E; [apply A|apply B]; exact E. }
+  split; [exact (ordinary_gt_count _ _ _ _ _ Hh H)|].
+  split.
+  { intros r Hr. destruct (tp_sound _ _ _ _ _ Hpf H r Hr) as [_ X]. exact X. }
+  split.
+  { intros r Hr. apply I1; assumption. }
+  intros g [Hg|[r [Hr Eg]]]; apply I3; [apply I2; assumption|]. apply (proj2 (I1 r Hr)). assumption.
+Qed.
+
+(* hypotheses on the inputs of the pipeline only *)
+Record pipeline_hyps (F : Facts) (ests gts : list Obj) (crit : Cfg) (pf : PF) : Prop := {
+  ph_scene : scene_hyps F ests gts;
+  ph_crit : wf_cfg crit;
+  ph_pf : pf_ok pf;
+  ph_points : forall g, In g gts -> obj_ok crit true g
+}.
+
+Lemma frame_pipeline_inv md p fpv F T ests gts crit pf Fr :
+  scene_hyps F ests gts -> frame_pipeline md p fpv F T ests gts crit pf = Ok Fr ->
+  exists rs, matched_results md p fpv F T ests gts = Ok rs /\ wf_frame rs gts /\ evaluate_frame crit pf rs gts = Ok Fr.
+Proof.
+  intros Hs H. unfold frame_pipeline in H.
+  destruct (matched_results_wf md p fpv F T ests gts Hs) as (rs & E & _ & W).
+  rewrite E in H. cbn [bind] in H. eauto.
+Qed.
+
+Lemma pipeline_frame_hyps md p fpv F T ests gts crit pf rs :
+  pipeline_hyps F ests gts crit pf -> matched_results md p fpv F T ests gts = Ok rs -> frame_hyps crit pf rs gts.
+Proof.
+  intros [Hs Hc Hp Ho] E. constructor; auto. eapply pipeline_wf_frame; eauto.
+Qed.
+
+Theorem pipeline_all_clauses md p fpv F T ests gts crit pf Fr :
+  pipeline_hyps F ests gts crit pf -> frame_pipeline md p fpv F T ests gts crit pf = Ok Fr ->
+  frame_clauses pf crit gts Fr.
+Proof.
+  intros Hh H. destruct (frame_pipeline_inv _ _ _ _ _ _ _ _ _ _ (ph_scene _ _ _ _ _ Hh) H) as (rs & E & _ & Ev).
+  eapply frame_all_clauses; [|exact Ev]. eapply pipeline_frame_hyps; eauto.
+Qed.
+
+(* with well-formed configurations the pipeline does not raise (no TypeError / IndexError branch is taken) *)
+Theorem pipeline_total md p fpv F T ests gts crit pf :
+  pipeline_hyps F ests gts crit pf -> exists Fr, frame_pipeline md p fpv F T ests gts crit pf = Ok Fr.
+Proof.
+  intros Hh. destruct (matched_results_ok md p fpv F T ests gts (ph_scene _ _ _ _ _ Hh)) as (rs & E).
+  pose proof (pipeline_frame_hyps _ _ _ _ _ _ _ _ _ _ Hh E) as Fh.
+  unfold frame_pipeline. rewrite E. cbn [bind]. unfold evaluate_frame.
+  assert (Hres_ok : forall r, In r rs -> res_ok crit r).
+  { intros r Hr g Hg. apply (ph_points _ _ _ _ _ Hh). eapply (wf_gt_in _ _ (h_frame _ _ _ _ Fh)); eauto. }
+  rewrite filter_object_results_spec by (auto; exact (ph_crit _ _ _ _ _ Hh)). cbn [bind].
+  rewrite filter_objects_spec by (auto; try exact (ph_crit _ _ _ _ _ Hh); exact (ph_points _ _ _ _ _ Hh)). cbn [bind].
+  rewrite get_positive_spec by exact (ph_pf _ _ _ _ _ Hh). cbn [bind].
+  rewrite get_negative_spec by exact (ph_pf _ _ _ _ _ Hh). cbn [bind]. eauto.
+Qed.
+
+(* ------------------------------------------------------------------------------------------------ *)
+(* 3. #TP seen by Ap(L) <= #critical ground truths labelled L                                        *)
+(* ------------------------------------------------------------------------------------------------ *)
+Import APKinds.
+
+Definition gt_is (L : nat) (r : Res) : bool :=
+  match r_gt r with Some g => Nat.eqb (o_label g) L | None => false end.
+
+(* a result Ap(L, t) counts as TP has a ground truth labelled L *)
+Lemma tp_has_label v w L t r :
+  is_tp (AP.classify AP.Minimize (AP.with_thr (AP.thr_for L t (lres_of v w r)) (AP.l_res (lres_of v w r)))) = true ->
+  gt_is L r = true.
+Proof.
+  unfold gt_is, lres_of, ap_res, AP.thr_for, AP.classify, AP.with_thr, AP.is_result_correct.
+  destruct (r_gt r) as [g|]; cbn.
+  - destruct (Nat.eqb (o_label g) L); [reflexivity|discriminate].
+  - destruct (Nat.eqb (o_label (r_est r)) L); discriminate.
+Qed.
+
+Lemma count_tp_cons k ks : count_tp (k :: ks) = ((if is_tp k then 1 else 0) + count_tp ks)%nat.
+Proof. unfold count_tp. cbn [filter]. destruct (is_tp k); reflexivity. Qed.
+
+Lemma count_tp_label_results v w cts L t rs :
+  (count_tp (map (AP.classify AP.Minimize) (AP.label_results cts L t (map (lres_of v w) rs)))
+   <= List.length (filter (gt_is L) rs))%nat.
+Proof.
+  unfold AP.label_results. induction rs as [|r tl IH]; [cbn; lia|].
+  cbn [map filter].
+  destruct (AP.in_bucket cts L (lres_of v w r)).
+  - cbn [map]. rewrite count_tp_cons.
+    destruct (is_tp _) eqn:E.
+    + rewrite (tp_has_label v w L t r E). cbn [List.length]. lia.
+    + destruct (gt_is L r); cbn [List.length]; lia.
+  - destruct (gt_is L r); cbn [List.length]; lia.
+Qed.
+
+Lemma filter_length_perm {A} (p : A -> bool) l l' :
+  Permutation l l' -> List.length (filter p l) = List.length (filter p l').
+Proof.
+  induction 1; cbn [filter]; auto.
+  - destruct (p x); cbn [List.length]; congruence.
+  - destruct (p x), (p y); reflexivity.
+  - congruence.
+Qed.
+
+Lemma count_tp_ranking m xs : count_tp (APModel.ranking m xs) = count_tp (map (AP.classify m) xs).
+Proof.
+  unfold count_tp, APModel.ranking. apply filter_length_perm, Permutation_map, APRanking.sort_desc_perm.
+Qed.
+
+Lemma filter_gt_is_len L rs :
+  List.length (filter (gt_is L) rs) = List.length (filter (fun g => Nat.eqb (o_label g) L) (PassFail.gts_of rs)).
+Proof.
+  unfold PassFail.gts_of. induction rs as [|r t IH]; [reflexivity|].
+  cbn [filter flat_map]. unfold gt_is at 1, gt_of at 1. destruct (r_gt r) as [g|]; cbn [app]; [|exact IH].
+  cbn [filter]. destruct (Nat.eqb (o_label g) L); cbn [List.length]; congruence.
+Qed.
+
+Lemma count_label_filter L gts :
+  AP.count_label L (map o_label gts) = List.length (filter (fun g => Nat.eqb (o_label g) L) gts).
+Proof.
+  unfold AP.count_label. induction gts as [|g t IH]; [reflexivity|].
+  cbn [map filter]. rewrite (Nat.eqb_sym L (o_label g)). destruct (Nat.eqb (o_label g) L); cbn [List.length]; congruence.
+Qed.
+
+Lemma filter_incl_length {A} (p : A -> bool) l l' :
+  NoDup l -> incl l l' -> (List.length (filter p l) <= List.length (filter p l'))%nat.
+Proof.
+  intros Hn Hi. apply NoDup_incl_length.
+  - apply NoDup_filter. exact Hn.
+  - intros x Hx. apply filter_In in Hx. apply filter_In. destruct Hx. split; auto.
+Qed.
+
+Theorem frame_tp_le_gt crit pf rs gts Fr v w cts L t :
+  frame_hyps crit pf rs gts -> evaluate_frame crit pf rs gts = Ok Fr ->
+  (count_tp (label_ranking v w cts L t (f_results Fr)) <= num_gt_label L (f_gts Fr))%nat.
+Proof.
+  intros Hh H. pose proof (h_pf _ _ _ _ Hh) as Hpf.
+  destruct (evaluate_frame_inv _ _ _ _ _ Hpf H) as (rs' & gts' & Hrs & Hgts & ->). cbn [f_gts f_results].
+  destruct (survivors _ _ _ _ _ _ Hh Hrs Hgts) as (_ & _ & Nd & _ & _ & Hinc & _ & _).
+  unfold label_ranking, num_gt_label.
+  change (map (AP.classify AP.Minimize) (AP.sort_desc AP.conf ?x)) with (APModel.ranking AP.Minimize x).
+  rewrite count_tp_ranking, count_label_filter.
+  eapply Nat.le_trans; [apply count_tp_label_results|].
+  rewrite filter_gt_is_len. apply filter_incl_length; [|exact Hinc].
+  unfold gt_ids in Nd. eapply NoDup_map_NoDup; exact Nd.
+Qed.
+
+Theorem pipeline_tp_le_gt md p fpv F T ests gts crit pf Fr v w cts L t :
+  pipeline_hyps F ests gts crit pf -> frame_pipeline md p fpv F T ests gts crit pf = Ok Fr ->
+  (count_tp (label_ranking v w cts L t (f_results Fr)) <= num_gt_label L (f_gts Fr))%nat.
+Proof.
+  intros Hh H. destruct (frame_pipeline_inv _ _ _ _ _ _ _ _ _ _ (ph_scene _ _ _ _ _ Hh) H) as (rs & E & _ & Ev).
+  eapply frame_tp_le_gt; [|exact Ev]. eapply pipeline_frame_hyps; eauto.
+Qed.
+
+(* ---- AP / APH of one label ---- *)
+Lemma label_results_weights v w cts L t rs :
+  (forall e g, 0 <= w e g <= 1) ->
+  APModel.res_weights_ok (AP.label_results cts L t (map (lres_of v w) rs)).
+Proof.
+  intros Hw x Hx. unfold AP.label_results in Hx. apply in_map_iff in Hx. destruct Hx as [y [<- Hy]].
+  apply filter_In in Hy. destruct Hy as [Hy _]. apply in_map_iff in Hy. destruct Hy as [r [<- _]].
+  unfold AP.with_thr, lres_of, ap_res. cbn [AP.l_res].
+  destruct (r_gt r) as [g|]; cbn [AP.weight AP.rid AP.conf AP.has_gt AP.gt_fp AP.lab_ok AP.matching]; [apply Hw|lra].
+Qed.
+
+Lemma heading_w_unit T : weights_in_unit T -> forall e g, 0 <= heading_w T e g <= 1.
+Proof.
+  intros H e g. unfold heading_w, lookup2. destruct (nth_error (t_heading T) e) as [row|] eqn:Er; [|lra].
+  destruct (nth_error row g) as [x|] eqn:Ex; [|lra]. eapply H; eapply nth_error_In; eauto.
+Qed.
+
+Lemma weights_in_unitb_ok T : weights_in_unitb T = true -> weights_in_unit T.
+Proof.
+  unfold weights_in_unitb, weights_in_unit. rewrite forallb_forall. intros H row x Hr Hx.
+  specialize (H row Hr). rewrite forallb_forall in H. specialize (H x Hx).
+  apply andb_true_iff in H. destruct H as [A B]. apply Qleb_true in A. apply Qleb_true in B. split; assumption.
+Qed.
+
+Lemma unit_w_unit : forall e g, 0 <= unit_w e g <= 1.
+Proof. intros. unfold unit_w. lra. Qed.
+
+(* one Ap of a Map of the frame: defined iff its bucket is not empty, and then in [0,1] *)
+Theorem one_ap_in_unit crit pf rs gts Fr v w cts Lt a :
+  frame_hyps crit pf rs gts -> evaluate_frame crit pf rs gts = Ok Fr -> (forall e g, 0 <= w e g <= 1) ->
+  AP.ap (one_ap cts (map o_label (f_gts Fr)) (map (lres_of v w) (f_results Fr)) Lt) = Some a ->
+  0 <= a <= 1.
+Proof.
+  intros Hh H Hw. unfold one_ap, ap_inputs.
+  set (xs := AP.label_results cts (fst Lt) (snd Lt) (map (lres_of v w) (f_results Fr))).
+  destruct xs as [|x0 xt] eqn:Ex; [discriminate|].
+  assert (Hne : xs <> []) by (rewrite Ex; discriminate). rewrite <- Ex.
+  rewrite (APModel.ap_model_nonempty AP.Minimize _ xs Hne). cbn [AP.ap]. intros [= <-].
+  apply ap_in_unit_interval.
+  - apply APModel.ranking_weights_ok. unfold xs. apply label_results_weights. exact Hw.
+  - exact (frame_tp_le_gt crit pf rs gts Fr v w cts (fst Lt) (snd Lt) Hh H).
+Qed.
+
+Theorem pipeline_one_ap_in_unit md p fpv F T ests gts crit pf Fr v w cts L t a :
+  pipeline_hyps F ests gts crit pf -> frame_pipeline md p fpv F T ests gts crit pf = Ok Fr ->
+  (forall e g, 0 <= w e g <= 1) ->
+  AP.ap (one_ap cts (map o_label (f_gts Fr)) (map (lres_of v w) (f_results Fr)) (L, t)) = Some a ->
+  0 <= a <= 1.
+Proof.
+  intros Hh H Hw Ha. destruct (frame_pipeline_inv _ _ _ _ _ _ _ _ _ _ (ph_scene _ _ _ _ _ Hh) H) as (rs & E & _ & Ev).
+  exact (one_ap_in_unit crit pf rs gts Fr v w cts (L, t) a (pipeline_frame_hyps _ _ _ _ _ _ _ _ _ _ Hh E) Ev Hw Ha).
+Qed.
+
+(* the AP of label L in a Map of the frame IS the C04 quantity ap_of_kinds on the ranking of theorem 3,
+   with num_ground_truth = the number of critical ground truths labelled L *)
+Lemma one_ap_value cts gts' v w rs' L t :
+  AP.ap (one_ap cts (map o_label gts') (map (lres_of v w) rs') (L, t)) =
+  match AP.label_results cts L t (map (lres_of v w) rs') with
+  | [] => None
+  | _ => Some (AP.ap_of_kinds (num_gt_label L gts') (label_ranking v w cts L t rs'))
+  end.
+Proof.
+  unfold one_ap, ap_inputs, label_ranking, num_gt_label. cbn [fst snd].
+  destruct (AP.label_results cts L t (map (lres_of v w) rs')); reflexivity.
+Qed.
+
+(* a whole Map: every AP, every APH, mAP and mAPH *)
+Theorem map_out_in_unit crit pf rs gts Fr v T cts dts thrs :
+  frame_hyps crit pf rs gts -> evaluate_frame crit pf rs gts = Ok Fr -> weights_in_unit T ->
+  let M := map_out v T cts dts thrs (f_results Fr) (f_gts Fr) in
+  (forall r a, In r (mo_aps M ++ mo_aphs M) -> AP.ap r = Some a -> 0 <= a <= 1) /\
+  (forall x, mo_map M = Some x -> 0 <= x <= 1) /\ (forall x, mo_maph M = Some x -> 0 <= x <= 1).
+Proof.
+  intros Hh H Hw. cbv zeta. unfold map_out. cbn [mo_aps mo_aphs mo_map mo_maph].
+  assert (A1 : forall r a, In r (map (one_ap cts (map o_label (f_gts Fr)) (map (lres_of v unit_w) (f_results Fr))) (combine dts thrs)) ->
+               AP.ap r = Some a -> 0 <= a <= 1).
+  { intros r a Hr Ha. apply in_map_iff in Hr. destruct Hr as [Lt [<- _]].
+    exact (one_ap_in_unit crit pf rs gts Fr v unit_w cts Lt a Hh H unit_w_unit Ha). }
+  assert (A2 : forall r a, In r (map (one_ap cts (map o_label (f_gts Fr)) (map (lres_of v (heading_w T)) (f_results Fr))) (combine dts thrs)) ->
+               AP.ap r = Some a -> 0 <= a <= 1).
+  { intros r a Hr Ha. apply in_map_iff in Hr. destruct Hr as [Lt [<- _]].
+    exact (one_ap_in_unit crit pf rs gts Fr v (heading_w T) cts Lt a Hh H (heading_w_unit T Hw) Ha). }
+  split; [|split].
+  - intros r a Hr. apply in_app_or in Hr. destruct Hr; eauto.
+  - intros x Hx. eapply mean_defined_bounds; [|exact Hx].
+    intros y Hy. apply in_map_iff in Hy. destruct Hy as [r [Hr Hin]]. eapply A1; eauto.
+  - intros x Hx. eapply mean_defined_bounds; [|exact Hx].
+    intros y Hy. apply in_map_iff in Hy. destruct Hy as [r [Hr Hin]]. eapply A2; eauto.
+Qed.
+
+(* add_frame_result = Done ...: what produced it *)
+Lemma add_frame_result_inv md p fpv F T ests gts crit pf det Fr cm pm :
+  add_frame_result md p fpv F T ests gts crit pf det = Done Fr cm pm ->
+  frame_pipeline md p fpv F T ests gts crit pf = Ok Fr /\
+  exists cts, c_targets crit = Some cts /\
+    (cm, pm) = (if fpv then ([], []) else frame_maps F T cts det (f_results Fr) (f_gts Fr)).
+Proof.
+  unfold add_frame_result, frame_pipeline.
+  destruct (matched_results md p fpv F T ests gts) as [rs| |]; cbn [bind of_err]; try discriminate.
+  destruct (filter_object_results crit true rs) as [rs'| |]; cbn [of_err]; try discriminate.
+  destruct (filter_objects crit true true gts) as [gts'| |]; cbn [of_err]; try discriminate.
+  destruct (c_targets crit) as [cts|]; [|discriminate].
+  destruct (negb fpv && negb (keys_ok cts det)); [discriminate|].
+  destruct (evaluate_frame crit pf rs gts) as [fr| |]; cbn [of_err]; try discriminate.
+  destruct (if fpv then _ else _) as [cm' pm'] eqn:E. intros [= -> -> ->].
+  split; [reflexivity|]. exists cts. split; [reflexivity|]. rewrite E. reflexivity.
+Qed.
+
+Theorem pipeline_scores_in_unit md p fpv F T ests gts crit pf det Fr cm pm :
+  pipeline_hyps F ests gts crit pf -> weights_in_unit T ->
+  add_frame_result md p fpv F T ests gts crit pf det = Done Fr cm pm ->
+  forall M, In M (cm ++ pm) ->
+    (forall r a, In r (mo_aps M ++ mo_aphs M) -> AP.ap r = Some a -> 0 <= a <= 1) /\
+    (forall x, mo_map M = Some x -> 0 <= x <= 1) /\ (forall x, mo_maph M = Some x -> 0 <= x <= 1).
+Proof.
+  intros Hh Hw H M HM. destruct (add_frame_result_inv _ _ _ _ _ _ _ _ _ _ _ _ _ H) as (Hp & cts & _ & Em).
+  destruct (frame_pipeline_inv _ _ _ _ _ _ _ _ _ _ (ph_scene _ _ _ _ _ Hh) Hp) as (rs & E & _ & Ev).
+  pose proof (pipeline_frame_hyps _ _ _ _ _ _ _ _ _ _ Hh E) as Fh.
+  destruct fpv.
+  - injection Em as -> ->. destruct HM.
+  - unfold frame_maps in Em. injection Em as -> ->.
+    apply in_app_or in HM. destruct HM as [HM|HM]; apply in_map_iff in HM; destruct HM as [thrs [<- _]];
+      exact (map_out_in_unit crit pf rs gts Fr _ T cts (d_targets det) thrs Fh Ev Hw).
+Qed.
+
+(* the counting fact at the level of the Maps: for every label of every Map, the ranking of that Ap has at
+   most as many TPs as the Ap's num_ground_truth *)
+Theorem map_out_tp_le_gt crit pf rs gts Fr v T cts dts thrs L t :
+  frame_hyps crit pf rs gts -> evaluate_frame crit pf rs gts = Ok Fr -> In (L, t) (combine dts thrs) ->
+  (count_tp (label_ranking v unit_w cts L t (f_results Fr)) <= num_gt_label L (f_gts Fr))%nat /\
+  (count_tp (label_ranking v (heading_w T) cts L t (f_results Fr)) <= num_gt_label L (f_gts Fr))%nat /\
+  In (num_gt_label L (f_gts Fr)) (mo_nums (map_out v T cts dts thrs (f_results Fr) (f_gts Fr))).
+Proof.
+  intros Hh H Hin. split; [eapply frame_tp_le_gt; eauto|]. split; [eapply frame_tp_le_gt; eauto|].
+  unfold map_out. cbn [mo_nums]. apply in_map_iff. exists (L, t). split; [reflexivity|exact Hin].
+Qed.
+
+(* ------------------------------------------------------------------------------------------------ *)
+(* 4. loosening the pass/fail thresholds (C08 with C03's bookkeeping)                                *)
+(* ------------------------------------------------------------------------------------------------ *)
+Lemma Forall2_nth_error_None {A B} (R : A -> B -> Prop) l l' i :
+  Forall2 R l l' -> nth_error l i = None -> nth_error l' i = None.
+Proof.
+  intros H. revert i. induction H; intros [|i]; cbn; auto; discriminate.
+Qed.
+
+Lemma thr_of_looser pf pf' lbl :
+  pf_looser pf pf' ->
+  match thr_of pf lbl, thr_of pf' lbl with
+  | Some t, Some t' => t <= t'
+  | None, None => True
+  | _, _ => False
+  end.
+Proof.
+  intros [Ht Hl]. unfold thr_of. rewrite Ht.
+  destruct (pf_targets pf) as [ts|]; [|exact I].
+  destruct (pf_thresholds pf) as [l|], (pf_thresholds pf') as [l'|]; try contradiction; [|exact I].
+  destruct (Filter.index_of lbl ts) as [i|]; [|exact I].
+  destruct (nth_error l i) as [t|] eqn:E.
+  - destruct (Forall2_nth_error _ _ _ _ _ Hl E) as [t' [E' Le]]. rewrite E'. exact Le.
+  - rewrite (Forall2_nth_error_None _ _ _ _ Hl E). exact I.
+Qed.
+
+Lemma is_ktp_looser pf pf' r : pf_looser pf pf' -> is_ktp pf r = true -> is_ktp pf' r = true.
+Proof.
+  intros Hl. unfold is_ktp, kind_of. destruct (r_gt r) as [g|] eqn:Eg; [|discriminate].
+  pose proof (thr_of_looser pf pf' (o_label g) Hl) as Ht.
+  destruct (lbl_is_fp (o_label g)) eqn:Efp.
+  - destruct (PassFail.is_result_correct (thr_of pf (o_label g)) r); discriminate.
+  - unfold PassFail.is_result_correct. rewrite Eg, Efp.
+    destruct (thr_of pf (o_label g)) as [t|], (thr_of pf' (o_label g)) as [t'|]; try contradiction.
+    + unfold is_better_than. destruct (r_score r) as [s|]; cbn [andb].
+      * destruct (Qltb_spec s t); cbn [andb]; [|discriminate].
+        destruct (Qltb_spec s t'); [destruct (r_label_ok r); auto|exfalso; lra].
+      * discriminate.
+    + destruct (r_label_ok r); auto.
+Qed.
+
+Lemma filter_length_le {A} (p q : A -> bool) l :
+  (forall x, In x l -> p x = true -> q x = true) -> (List.length (filter p l) <= List.length (filter q l))%nat.
+Proof.
+  induction l as [|x t IH]; intros H; [cbn; lia|].
+  cbn [filter]. assert (IH' := IH (fun y Hy => H y (or_intror Hy))).
+  destruct (p x) eqn:Ep.
+  - rewrite (H x (or_introl eq_refl) Ep). cbn [List.length]. lia.
+  - destruct (q x); cbn [List.length]; lia.
+Qed.
+
+Theorem frame_fn_antitone crit pf pf' rs gts Fr Fr' :
+  frame_hyps crit pf rs gts -> pf_ok pf' -> pf_looser pf pf' ->
+  evaluate_frame crit pf rs gts = Ok Fr -> evaluate_frame crit pf' rs gts = Ok Fr' ->
+  f_results Fr' = f_results Fr /\ f_gts Fr' = f_gts Fr /\
+  (forall r, In r (f_tp Fr) -> In r (f_tp Fr')) /\
+  (List.length (f_tp Fr) <= List.length (f_tp Fr'))%nat /\
+  (List.length (f_fn Fr') <= List.length (f_fn Fr))%nat.
+Proof.
+  intros Hh Hpf' Hl H H'.
+  assert (Hh' : frame_hyps crit pf' rs gts) by (destruct Hh; constructor; auto).
+  pose proof (ordinary_gt_count _ _ _ _ _ Hh H) as C.
+  pose proof (ordinary_gt_count _ _ _ _ _ Hh' H') as C'.
+  destruct (evaluate_frame_inv _ _ _ _ _ (h_pf _ _ _ _ Hh) H) as (rs1 & gts1 & Hrs & Hgts & ->).
+  destruct (evaluate_frame_inv _ _ _ _ _ Hpf' H') as (rs2 & gts2 & Hrs2 & Hgts2 & ->).
+  assert (rs2 = rs1) by congruence. assert (gts2 = gts1) by congruence. subst rs2 gts2.
+  cbn [f_results f_gts f_tp f_fn] in *.
+  assert (Hin : forall r, In r (tp_l pf rs1) -> In r (tp_l pf' rs1)).
+  { unfold tp_l. intros r Hr. apply filter_In in Hr. apply filter_In. destruct Hr. split; [assumption|].
+    eapply is_ktp_looser; eauto. }
+  assert (Hlen : (List.length (tp_l pf rs1) <= List.length (tp_l pf' rs1))%nat).
+  { unfold tp_l. apply filter_length_le. intros x _. apply is_ktp_looser; assumption. }
+  repeat split; auto. lia.
+Qed.
+
+Theorem pipeline_fn_antitone md p fpv F T ests gts crit pf pf' Fr :
+  pipeline_hyps F ests gts crit pf -> pf_ok pf' -> pf_looser pf pf' ->
+  frame_pipeline md p fpv F T ests gts crit pf = Ok Fr ->
+  exists Fr', frame_pipeline md p fpv F T ests gts crit pf' = Ok Fr' /\
+    f_results Fr' = f_results Fr /\ f_gts Fr' = f_gts Fr /\
+    (forall r, In r (f_tp Fr) -> In r (f_tp Fr')) /\
+    (List.length (f_tp Fr) <= List.length (f_tp Fr'))%nat /\
+    (List.length (f_fn Fr') <= List.length (f_fn Fr))%nat.
+Proof.
+  intros Hh Hpf' Hl H.
+  assert (Hh' : pipeline_hyps F ests gts crit pf') by (destruct Hh; constructor; auto).
+  destruct (pipeline_total md p fpv F T ests gts crit pf' Hh') as [Fr' H'].
+  exists Fr'. split; [exact H'|].
+  destruct (frame_pipeline_inv _ _ _ _ _ _ _ _ _ _ (ph_scene _ _ _ _ _ Hh) H) as (rs & E & _ & Ev).
+  destruct (frame_pipeline_inv _ _ _ _ _ _ _ _ _ _ (ph_scene _ _ _ _ _ Hh) H') as (rs2 & E2 & _ & Ev').
+  assert (rs2 = rs) by congruence. subst rs2.
+  exact (frame_fn_antitone crit pf pf' rs gts Fr Fr' (pipeline_frame_hyps _ _ _ _ _ _ _ _ _ _ Hh E) Hpf' Hl Ev Ev').
+Qed.
